@@ -304,15 +304,19 @@ class TCPPacketGenerator(Device, OutMixIn):
         )
         self.congestion_control.timer_expired()
 
+        # doubling the RTO before the retransmission: over a path without delay
+        # its acknowledgement comes back inside resend_packet() and computes
+        # the RTO afresh, which must not be doubled afterwards
+        self.rto *= 2
+        backed_off = self.rto
+
         # retransmit the segment
         self.resend_packet(packet_id)
 
-        # start a new timer for this segment and doubling the RTO
-        self.rto *= 2
-        # over a path without delay the retransmission may already have been
+        # start a new timer for this segment, unless it has already been
         # acknowledged (and its timer released) inside resend_packet()
         if packet_id in self.timers:
-            self.timers[packet_id].restart(self.rto)
+            self.timers[packet_id].restart(backed_off)
 
     def put(self, ack: Packet):
         """Upon receiving an acknowledgement packet"""
